@@ -180,7 +180,7 @@ def apply_op(lst, op, validate):
     return None
 
 
-def run_single(L, op, ctx, validate=None, tl=None, model=None, vreset=None):
+def run_single(L, op, ctx, validate=None, tl=None, model=None, vreset=None, oneshot=False):
     """One op on a fresh (or given) TraitList against the model. Returns new model."""
     if tl is None:
         # the grid runs with the COERCING validator and gives new items as digit strings: what is stored and what the
@@ -190,6 +190,11 @@ def run_single(L, op, ctx, validate=None, tl=None, model=None, vreset=None):
         model = list(range(L))
     events = []
     tl.notifiers[:] = [lambda t, i, r, a: events.append((i, list(r), list(a)))]
+    if oneshot:
+        # a notifier AHEAD of the recording one that takes itself off the list when it is called
+        def one_shot(t, i, r, a):
+            t.notifiers.remove(one_shot)
+        tl.notifiers.insert(0, one_shot)
     before = list(tl)
     what = "op=%r" % (op,)
     if vreset:
@@ -409,6 +414,7 @@ def hist_strategy(tier):
     return st.fixed_dictionaries({
         "validator": st.sampled_from(["ident", "coerce", "reject", "kth:1", "kth:2", "kth:3"]),
         "init": st.lists(st.integers(0, 6), max_size=7),
+        "oneshot": st.booleans(),
         "ops": st.lists(OP.map(lambda t: [list(x) if isinstance(x, tuple) else x for x in t]), min_size=1, max_size=12),
     })
 
@@ -447,7 +453,7 @@ def hist_run(case, ctx):
             interesting = True
             ctx.label("oversized-index")
         n_fail = ctx.classes.get("failing-op", 0)
-        tl, model = run_single(None, op, ctx, validate=val_model, tl=tl, model=model, vreset=reset)
+        tl, model = run_single(None, op, ctx, validate=val_model, tl=tl, model=model, vreset=reset, oneshot=bool(case.get("oneshot")))
         if ctx.classes.get("failing-op", 0) != n_fail:
             interesting = True
     if case["validator"] != "ident":
